@@ -95,6 +95,8 @@ namespace sim
         (void)!write(g_child_fd, msg, static_cast<size_t>(n));
         void *frames[48];
         int k = backtrace(frames, 48);
+        n = snprintf(msg, sizeof msg, "X frames=%d\n", k);
+        (void)!write(g_child_fd, msg, static_cast<size_t>(n));
         (void)!write(g_child_fd, "X backtrace-begin\n", 18);
         backtrace_symbols_fd(frames, k, g_child_fd);
         (void)!write(g_child_fd, "X backtrace-end\n", 16);
